@@ -475,16 +475,35 @@ def sync_do_unique(
             yield item
 
 
+async def async_unique(
+    environment: "Environment",
+    value: "t.AsyncIterable[V] | t.Iterable[V]",
+    case_sensitive: bool,
+    attribute: str | int | None,
+) -> "t.AsyncIterator[V]":
+    getter = make_attrgetter(
+        environment, attribute, postprocess=ignore_case if not case_sensitive else None
+    )
+    seen = set()
+
+    async for item in auto_aiter(value):
+        key = getter(item)
+
+        if key not in seen:
+            seen.add(key)
+            yield item
+
+
 @async_variant(sync_do_unique)  # type: ignore
 async def do_unique(
     environment: "Environment",
     value: "t.AsyncIterable[V] | t.Iterable[V]",
     case_sensitive: bool = False,
     attribute: str | int | None = None,
-) -> "t.Iterator[V]":
-    return sync_do_unique(
-        environment, await auto_to_list(value), case_sensitive, attribute
-    )
+) -> "t.AsyncIterator[V]":
+    # lazy like the sync variant: items are taken from the input as the
+    # result is consumed
+    return async_unique(environment, value, case_sensitive, attribute)
 
 
 def _min_or_max(
